@@ -17,11 +17,20 @@ ALPHA8 = [0, 33, 34, 79, 80, 126, 127, 255]
 _E = _D = None
 
 
+def _do(fn, data):
+    a = bytearray(data)
+    try:
+        fn(a)
+    except Exception:
+        return [-1]          # no byte string: an exception from a total function disagrees with every model value
+    return a
+
+
 def _row(s):
-    e = bytearray(s); _E(e)
-    d = bytearray(s); _D(d)
-    de = bytearray(e); _D(de)
-    ed = bytearray(d); _E(ed)
+    e = _do(_E, s)
+    d = _do(_D, s)
+    de = _do(_D, e) if list(e) != [-1] else [-1]
+    ed = _do(_E, d) if list(d) != [-1] else [-1]
     return [list(e), list(d), list(de), list(ed)]
 
 
